@@ -148,11 +148,31 @@ func TestC04_Exhaustive(t *testing.T) {
 // significant characters, with a trigger forced at the end in a third of the cases.
 func genTokInput(t *rapid.T, alphabet []string, maxLen int) string {
 	n := rapid.IntRange(0, maxLen).Draw(t, "len")
+	if rapid.IntRange(0, 15).Draw(t, "long") == 0 {
+		n = rapid.IntRange(maxLen, 20*maxLen).Draw(t, "longlen") // long inputs: offsets past 256, many lines
+	}
 	var sb strings.Builder
+	if rapid.IntRange(0, 99).Draw(t, "huge") == 0 {
+		// several KB of mostly multi-byte characters: buffer-size thresholds (4 KB, 8 KB) inside the input
+		unit := rapid.SampledFrom([]string{"é", "中", "😀", "aé", "中\n", "'中'", "\"é\","}).Draw(t, "unit")
+		sb.WriteString(strings.Repeat("x", rapid.IntRange(0, 3).Draw(t, "shift")))
+		sb.WriteString(strings.Repeat(unit, rapid.IntRange(1400, 3200).Draw(t, "reps")))
+	}
+	if rapid.IntRange(0, 19).Draw(t, "prefix") == 0 {
+		sb.WriteRune(rapid.SampledFrom(unicodeSpecials).Draw(t, "first")) // a special character at offset 0 (BOM, NBSP, ...)
+	}
 	for i := 0; i < n; i++ {
-		switch rapid.IntRange(0, 9).Draw(t, "k") {
+		switch rapid.IntRange(0, 11).Draw(t, "k") {
 		case 0:
 			sb.WriteRune(genRune(t))
+		case 1:
+			if rapid.IntRange(0, 3).Draw(t, "runp") == 0 {
+				// a long run of one character class (chunk sizes of 16, 32, 64, 256 inside one token)
+				unit := rapid.SampledFrom([]string{" ", "\t", "\n", " \r\n", "a", "1", "-", ".", "<", "=", "'x", "é", "#"}).Draw(t, "rununit")
+				sb.WriteString(strings.Repeat(unit, rapid.IntRange(15, 300).Draw(t, "runlen")))
+			} else {
+				sb.WriteString(rapid.SampledFrom(alphabet).Draw(t, "sym"))
+			}
 		default:
 			sb.WriteString(rapid.SampledFrom(alphabet).Draw(t, "sym"))
 		}
@@ -164,7 +184,23 @@ func genTokInput(t *rapid.T, alphabet []string, maxLen int) string {
 }
 
 // genRune draws a valid Unicode scalar value across all UTF-8 lengths and the class boundaries.
+// aliasRunes: code points whose low byte (or low 16 bits) equals a significant character - LF, CR, quotes,
+// '/', '-', '.', blank, '{', digits - for narrowing / masking slips in character tests.
+var aliasRunes = []rune{0x010a, 0x010d, 0x4e0a, 0x4e0d, 0x300d, 0x200d, 0xff0d, 0x2022, 0x2027, 0x202f, 0x212d, 0x212e, 0x2120, 0x217b, 0x2130, 0x0120, 0x0127,
+	0x1000a, 0x1000d, 0x1f60a, 0x1f60d, 0x10022, 0x10027, 0x1002f, 0x1002d, 0x10020, 0x10061, 0x10041, 0x1007b, 0x10030, 0x2000a, 0x100061}
+
+// unicodeSpecials: characters that standard-library helpers (TrimSpace, IsSpace, IsDigit, IsLetter, ToUpper /
+// ToLower / EqualFold, BOM handling, utf8.RuneError) treat specially although the tokenizers' tables do not.
+var unicodeSpecials = []rune{0xfeff, 0x2028, 0x2029, 0x0085, 0x00a0, 0x3000, 0x1680, 0x200b, 0xfffd, 0xfffc,
+	0x0663, 0x0967, 0x0e53, 0xff10, 0xff19, 0x00b2, 0x2460, 0x0130, 0x0131, 0x017f, 0x212a, 0x00df, 0x01c5, 0x03c2, 0x1e9e, 0x00b5, 0x2126, 0x00aa}
+
 func genRune(t *rapid.T) rune {
+	switch rapid.IntRange(0, 11).Draw(t, "alias") {
+	case 0:
+		return rapid.SampledFrom(aliasRunes).Draw(t, "aliasrune")
+	case 1:
+		return rapid.SampledFrom(unicodeSpecials).Draw(t, "special")
+	}
 	switch rapid.IntRange(0, 5).Draw(t, "rk") {
 	case 0:
 		return rune(rapid.IntRange(0, 0x7f).Draw(t, "ascii"))
@@ -201,7 +237,7 @@ func FuzzC04(f *testing.F) {
 		f.Add(s, uint8(0))
 	}
 	f.Fuzz(func(t *testing.T, s string, k uint8) {
-		if len(s) > 4096 {
+		if len(s) > 1<<16 {
 			t.Skip()
 		}
 		c := c04Case{tokKinds[int(k)%4], string([]rune(s))}
